@@ -1,12 +1,14 @@
 (* C01 — Live allocations are valid, aligned and pairwise disjoint.
    Only pinned statements, `exact`, and Print Assumptions.
-   PARTIAL (named so): preservation is proved for every operation (allocate, allocate_zeroed,
-   deallocate, grow(_zeroed), shrink — in place, moved, through WithoutDealloc/WithoutShrink —
-   fill, checkpoint, reset_to, reset, reset_to_start, reserve, claim, unclaim, drop) except
-   `OTryErr` (alloc_try_with(_mut) whose closure returns Err; `is_realloc o = false` excludes
-   only that one), which is covered by the correspondence check and the monitors. *)
+   Preservation is proved for EVERY modelled operation (allocate, allocate_zeroed, deallocate,
+   grow(_zeroed), shrink — in place, moved, through WithoutDealloc/WithoutShrink — fill,
+   checkpoint, reset_to, alloc_try_with(_mut) returning Err, reset, reset_to_start, reserve, claim,
+   unclaim, entering and leaving aligned / scoped_aligned regions, prepare, writes into a prepared
+   region, commit (typed and dyn, forward and reverse), drop) under the contract of each, and
+   lifted to every history (C01_reachable).  The older `…_partial` statements are kept: other
+   properties' files refer to them. *)
 From Coq Require Import ZArith List.
-From BS Require Import Word BumpSpec ChunkSpec Arena ArenaInv.
+From BS Require Import Word BumpSpec ChunkSpec Arena ArenaInv ArenaExt ArenaInv2.
 Import ListNotations.
 Open Scope Z_scope.
 
@@ -36,6 +38,26 @@ Theorem C01_reachable_partial :
   forall c ops s, cfg_ok c -> inv c s -> run_ok c s ops -> inv c (run c s ops).
 Proof. exact run_inv_partial. Qed.
 
+(* the full statements: every operation, every history *)
+Theorem C01_step_inv :
+  forall c s o r,
+  cfg_ok c -> inv c s -> op_ok2 c s o -> op_resp_ok2 c s o r -> inv c (fst (step c s o r)).
+Proof. exact step_inv. Qed.
+
+Theorem C01_reachable :
+  forall c xs s, cfg_ok c -> inv c s -> hok c s xs -> inv c (hrun c s xs).
+Proof. exact run_inv. Qed.
+
+(* the contract commit asks for is what a successful prepare delivers *)
+Theorem C01_prepare_gives_commit_contract :
+  forall c s0 h es ea cap rev r ptr cap',
+  cfg_ok c -> inv c s0 -> resp_ok c s0 (es * cap) ea r ->
+  0 < es -> 0 <= cap -> pow2 ea -> (ea | es) ->
+  o_res (snd (step c s0 (OPrepare h es ea cap rev) r)) = RRange ptr cap' ->
+  forall len, 0 <= len <= cap' ->
+  commit_ok c (fst (step c s0 (OPrepare h es ea cap rev) r)) es ea ptr len cap' rev.
+Proof. exact prepare_gives_commit_ok. Qed.
+
 Theorem C01_initial_unallocated :
   forall c m, valid_min_align m -> inv c (init_unallocated m).
 Proof. exact inv_unallocated. Qed.
@@ -61,6 +83,9 @@ Proof. exact is_last_in_cur. Qed.
 Print Assumptions C01_live_blocks.
 Print Assumptions C01_step_inv_partial.
 Print Assumptions C01_reachable_partial.
+Print Assumptions C01_step_inv.
+Print Assumptions C01_reachable.
+Print Assumptions C01_prepare_gives_commit_contract.
 Print Assumptions C01_initial_unallocated.
 Print Assumptions C01_result_block.
 Print Assumptions C01_is_last_no_false_positive.
